@@ -666,10 +666,17 @@ func respFields(req *tikvrpc.Request, resp *tikvrpc.Response, err error) map[str
 	case *kvrpcpb.PessimisticLockResponse:
 		f["errors"] = keyErrs(r.Errors)
 		res := []string{}
+		lwc := []uint64{}
+		exi := []bool{}
 		for _, x := range r.Results {
 			res = append(res, x.Type.String())
+			lwc = append(lwc, x.LockedWithConflictTs)
+			exi = append(exi, x.Existence)
 		}
 		f["results"] = res
+		f["lwc"] = lwc
+		f["existence"] = exi
+		f["not_founds"] = r.NotFounds
 	case *kvrpcpb.PessimisticRollbackResponse:
 		f["errors"] = keyErrs(r.Errors)
 	case *kvrpcpb.CheckTxnStatusResponse:
